@@ -32,6 +32,7 @@ type vfArg struct {
 	Lines   []string `json:"lines,omitempty"` // raw lines of the file
 	NoEOL   bool     `json:"noEOL,omitempty"` // file does not end in a newline
 	Empty   bool     `json:"emptyName,omitempty"`
+	Bad     string   `json:"bad,omitempty"` // "dir": the @path is a directory; "missing": it does not exist
 }
 
 type vfC08ArgsCase struct {
@@ -74,6 +75,14 @@ func vfMaterialise(dir string, args []vfArg) ([]string, error) {
 			out = append(out, "@")
 			continue
 		}
+		if a.Bad == "dir" {
+			out = append(out, "@"+dir)
+			continue
+		}
+		if a.Bad == "missing" {
+			out = append(out, "@"+filepath.Join(dir, "no-such-file.txt"))
+			continue
+		}
 		path := filepath.Join(dir, fmt.Sprintf("patterns-%d.txt", i))
 		content := strings.Join(a.Lines, "\n")
 		if !a.NoEOL && len(a.Lines) > 0 {
@@ -87,7 +96,9 @@ func vfMaterialise(dir string, args []vfArg) ([]string, error) {
 	return out, nil
 }
 
-var vfPatternWords = []string{"zz/a", "zz/*/b", "zz/**", "**/zz-none", "zz q/with space/*", "zz/a*", "zz/b/c/d", "zz-1", "zz/**/x"}
+// (test names of a user's own --test-file suite may contain commas, quotes and other punctuation)
+var vfPatternWords = []string{"zz/a", "zz/*/b", "zz/**", "**/zz-none", "zz q/with space/*", "zz/a*", "zz/b/c/d", "zz-1", "zz/**/x",
+	"zz/unary, with deadline", "zz/a,b", `zz/"quoted" case`, "zz/semi;colon=x"}
 
 func vfGenArgs(t *rapid.T) vfC08ArgsCase {
 	c := vfC08ArgsCase{Flag: rapid.SampledFrom([]string{"run", "skip", "known-failing", "known-flaky"}).Draw(t, "flag")}
@@ -99,6 +110,8 @@ func vfGenArgs(t *rapid.T) vfC08ArgsCase {
 			a.IsFile = true
 			if rapid.IntRange(0, 9).Draw(t, "emptyname") == 0 {
 				a.Empty = true
+			} else if rapid.IntRange(0, 14).Draw(t, "badfile") == 0 {
+				a.Bad = rapid.SampledFrom([]string{"dir", "missing"}).Draw(t, "bad")
 			} else {
 				nl := rapid.IntRange(0, 5).Draw(t, "nlines")
 				for j := 0; j < nl; j++ {
@@ -111,6 +124,10 @@ func vfGenArgs(t *rapid.T) vfC08ArgsCase {
 						a.Lines = append(a.Lines, "# comment "+rapid.SampledFrom(vfPatternWords).Draw(t, "cw"))
 					case 3:
 						a.Lines = append(a.Lines, " \t# indented comment")
+						if rapid.IntRange(0, 3).Draw(t, "longline") == 0 {
+							// a very long line (a generated banner, a pasted list): longer than any line buffer
+							a.Lines[len(a.Lines)-1] = "# " + strings.Repeat("long comment ", 6000)
+						}
 					default:
 						counter++
 						w := fmt.Sprintf("%s/n%d", rapid.SampledFrom(vfPatternWords).Draw(t, "w"), counter)
@@ -176,6 +193,15 @@ func TestVerifC08Args(t *testing.T) {
 				return nil // harness I/O problem, not a verdict
 			}
 			got, err := argsToPatterns(args)
+			for _, a := range c.Args {
+				if a.Bad != "" {
+					// a pattern file that cannot be read must not be skipped silently: its patterns would not take part
+					if err == nil {
+						return verifkit.Violf("args-unreadable-file-accepted", "argsToPatterns(%q) = %q without an error although one @path is %s", args, got, a.Bad)
+					}
+					return nil
+				}
+			}
 			if err != nil {
 				return verifkit.Violf("args-error", "argsToPatterns(%q) failed: %v", args, err)
 			}
@@ -225,6 +251,15 @@ func TestVerifC08CLI(t *testing.T) {
 			var stdout, stderr bytes.Buffer
 			cmd.Stdout, cmd.Stderr = &stdout, &stderr
 			runErr := cmd.Run()
+			for _, a := range c.Args {
+				if a.Bad != "" {
+					// an unreadable pattern file stops the run with an error (not a silent run without its patterns)
+					if runErr == nil {
+						return verifkit.Violf("cli-unreadable-file-accepted", "CLI %q exited 0 although one @path is %s; stderr=%q", cli, a.Bad, stderr.String())
+					}
+					return nil
+				}
+			}
 			if len(want) == 0 {
 				return nil // nothing supplied: behaviour (a real run) is outside this check
 			}
